@@ -27,7 +27,7 @@
 #include <wchar.h>
 
 enum { F_BACKGROUND, F_FOREGROUND, F_MULTI_SENDER, F_LONG_MESSAGE, F_FILTERED_CALLS, F_LEVEL_CHANGE, F_EMPTY_MESSAGE, F_SHUTDOWN_WITH_BACKLOG,
-       F_TRUNCATED_NOALLOC, F_TRUNCATED_DIRECT, F_EXACT_FIT, F_LEVEL_NONE, F_DEEP_BACKLOG, F_WRITER_ERRORS, F_LONG_SUBJECT, F_STD_BY_NAME, F_STD_BY_FILE, F_NOALLOC_WRITE_FAILED, F_UNFORMATTABLE };
+       F_TRUNCATED_NOALLOC, F_TRUNCATED_DIRECT, F_EXACT_FIT, F_LEVEL_NONE, F_DEEP_BACKLOG, F_WRITER_ERRORS, F_LONG_SUBJECT, F_STD_BY_NAME, F_STD_BY_FILE, F_NOALLOC_WRITE_FAILED, F_UNFORMATTABLE, F_WRITER_LOGS_ITSELF };
 
 /* ================================================================== recording writer */
 #define MAX_REC 4096
@@ -47,6 +47,12 @@ static uint64_t s_in_writer, s_writer_overlaps;
 static size_t s_plain_last_len; /* plain on purpose, see writer_write */
 static int s_writer_stall, s_writer_gate, s_writer_fails;
 static uint64_t s_writer_errors;
+/* a writer that logs itself (a "rotated the file" note): in some background scenarios every fifth write sends one follow-up
+ * line through the same channel, from the logger thread, also while clean-up is already waiting for that thread. The
+ * channel is still running then (it only stops once its queue is empty), so the line has to reach the writer as well. */
+static struct aws_log_channel *s_echo_channel;
+static uint64_t s_echo_sent, s_echo_refused;
+#define ECHO_PREFIX "ECHO from the writer after record "
 
 static int writer_write(struct aws_log_writer *writer, const struct aws_string *output) {
     (void)writer;
@@ -81,6 +87,18 @@ static int writer_write(struct aws_log_writer *writer, const struct aws_string *
     s_rec[i].len = output->len;
     memcpy(s_arena + off, aws_string_bytes(output), output->len);
     __atomic_fetch_sub(&s_in_writer, 1, __ATOMIC_RELAXED);
+    struct aws_log_channel *echo = __atomic_load_n(&s_echo_channel, __ATOMIC_ACQUIRE);
+    if (echo && i % 5 == 2 && (output->len < sizeof(ECHO_PREFIX) || memcmp(aws_string_bytes(output), ECHO_PREFIX, sizeof(ECHO_PREFIX) - 1))) {
+        char note[96];
+        snprintf(note, sizeof(note), ECHO_PREFIX "%llu\n", (unsigned long long)i);
+        struct aws_string *line = aws_string_new_from_c_str(mon_guard_allocator(), note);
+        if (echo->vtable->send(echo, line)) {
+            aws_string_destroy(line);
+            __atomic_fetch_add(&s_echo_refused, 1, __ATOMIC_RELAXED);
+        } else {
+            __atomic_fetch_add(&s_echo_sent, 1, __ATOMIC_RELAXED);
+        }
+    }
     /* a writer may fail (disk full ...): in some scenarios every 7th write reports an error. The line has reached
      * the writer all the same; whatever the channel does with the result, each line string must still be destroyed
      * exactly once (guard allocator / ASan / balance) */
@@ -524,6 +542,10 @@ static void thr_case(void) {
     bool writer_fails = mon_chance(r, 1, 3);
     __atomic_store_n(&s_writer_fails, writer_fails ? 1 : 0, __ATOMIC_RELAXED);
     __atomic_store_n(&s_writer_errors, 0, __ATOMIC_RELAXED);
+    bool echo = background && mon_chance(r, 1, 3);
+    __atomic_store_n(&s_echo_sent, 0, __ATOMIC_RELAXED);
+    __atomic_store_n(&s_echo_refused, 0, __ATOMIC_RELAXED);
+    __atomic_store_n(&s_echo_channel, echo ? &channel : NULL, __ATOMIC_RELEASE);
     pthread_barrier_init(&T.barrier, NULL, (unsigned)T.nsenders + 1);
     pthread_t th[MAX_SENDERS];
     for (int i = 0; i < T.nsenders; ++i) {
@@ -551,6 +573,7 @@ static void thr_case(void) {
     aws_log_channel_clean_up(&channel);
     uint64_t t_cleanup_ret = mon_ev_now();
     uint64_t nrec_at_cleanup = __atomic_load_n(&s_nrec, __ATOMIC_RELAXED);
+    __atomic_store_n(&s_echo_channel, NULL, __ATOMIC_RELEASE);
     aws_log_formatter_clean_up(&formatter);
     aws_logger_clean_up(&T.logger);
     perturb_end();
@@ -587,7 +610,7 @@ static void thr_case(void) {
     for (int i = 0; i < MAX_SENDERS; ++i) {
         last_n[i] = -1;
     }
-    uint64_t bg_thread = 0;
+    uint64_t bg_thread = 0, echo_seen = 0;
     size_t nrec = (size_t)(nrec_after < MAX_REC ? nrec_after : MAX_REC);
     for (size_t k = 0; k < nrec; ++k) {
         struct rec *rc_ = &s_rec[k];
@@ -595,6 +618,10 @@ static void thr_case(void) {
             mon_violation("C14:write-after-cleanup", "record %zu was written after the channel's clean_up returned", k);
         }
         int sender, n;
+        if (rc_->len >= sizeof(ECHO_PREFIX) && !memcmp(s_arena + rc_->off, ECHO_PREFIX, sizeof(ECHO_PREFIX) - 1)) {
+            ++echo_seen;
+            continue;
+        }
         if (!check_line(s_arena + rc_->off, rc_->len, k, &sender, &n)) {
             continue;
         }
@@ -639,6 +666,17 @@ static void thr_case(void) {
             }
             free(m->expected);
             m->expected = NULL;
+        }
+    }
+    {
+        uint64_t sent = __atomic_load_n(&s_echo_sent, __ATOMIC_RELAXED), refused = __atomic_load_n(&s_echo_refused, __ATOMIC_RELAXED);
+        if (refused || echo_seen != sent) {
+            mon_violation("C14:lost-line", "background channel: the writer sent %llu follow-up lines from the logger thread while the channel was running; %llu were refused and %llu "
+                          "reached the writer before clean_up returned", (unsigned long long)(sent + refused), (unsigned long long)refused, (unsigned long long)echo_seen);
+        }
+        if (sent) {
+            mon_flag(F_WRITER_LOGS_ITSELF);
+            mon_count("lines_sent_by_the_writer_itself", sent);
         }
     }
     struct mon_alloc_stats st1;
@@ -1099,7 +1137,7 @@ int main(int argc, char **argv) {
                                   "empty_message", "clean_up_with_lines_still_queued", "noalloc_line_truncated", "direct_line_truncated", "line_fills_buffer_exactly",
                                   "level_none", "clean_up_with_more_than_64_lines_queued", "writer_reported_errors",
                                   "subject_name_of_79_to_300_characters", "standard_logger_file_opened_by_name", "standard_logger_callers_FILE",
-                                  "noalloc_logger_stream_refused_a_write", "message_that_cannot_be_formatted"};
+                                  "noalloc_logger_stream_refused_a_write", "message_that_cannot_be_formatted", "writer_sent_lines_from_the_logger_thread"};
     for (int i = 0; i < (int)(sizeof(names) / sizeof(names[0])); ++i) {
         mon_flag_name(i, names[i]);
     }
